@@ -1,1 +1,151 @@
-(* Proofs/GenC19Proofs.v - placeholder *)
+(** Proofs/GenC19Proofs.v — Tie B for C19: the definitions GENERATED from the current Python
+    source (Gen/GenC19.v, rewritten on every run by tools/py2coq_c19.py) are proved equal, for
+    all inputs, to the hand-written model of Model/Loader.v that the C19 theorems are about.
+    The translator leaves the pathlib / file-system primitives abstract; here they are
+    instantiated with the model's functions:
+       Path.is_file, Path.exists      the two predicates of the environment
+       Path.is_absolute               is_abs          Path.resolve     resolve cwd
+       Path.joinpath                  joinpath        Path.samefile    string equality
+       Path.parent / Path.name        dirname / basename               Path(s)  the text itself
+       add_sys_path                   Loader.add_sys_path
+       config.cwd / pipelines_subdir  e_cwd / e_subdir;  config.default_loader = FILE_LOADER *)
+From PV Require Import Loader LoaderProofs GenC19.
+Open Scope string_scope.
+
+Definition text_id (s : string) : string := s.
+
+(** ** constants read off the source *)
+Lemma gen_config_default_loader_is_model : gen_config_default_loader = FILE_LOADER.
+Proof. reflexivity. Qed.
+
+Lemma gen_file_loader_name_is_model : gen_file_loader_name = FILE_LOADER.
+Proof. reflexivity. Qed.
+
+Lemma gen_root_parent_is_model : gen_root_parent = PNone.
+Proof. reflexivity. Qed.
+
+(** module level of pypyr/loaders/file.py *)
+Lemma gen_cwd_pipelines_dir_is_model e :
+  gen_cwd_pipelines_dir (e_cwd e) (e_subdir e) joinpath = cwd_pipelines e.
+Proof. reflexivity. Qed.
+
+Lemma gen_builtin_pipelines_dir_is_model repo :
+  gen_builtin_pipelines_dir repo joinpath = default_builtin repo.
+Proof. reflexivity. Qed.
+
+(** ** pipedef.py *)
+Lemma gen_PipelineFileInfo_is_model path :
+  gen_PipelineFileInfo (basename path) gen_file_loader_name (PPath (dirname path)) path = file_info path.
+Proof. reflexivity. Qed.
+
+Lemma gen_PipelineInfo_defaults_cascade name loader parent :
+  gen_PipelineInfo name loader parent gen_PipelineInfo_default_is_parent_cascading
+                   gen_PipelineInfo_default_is_loader_cascading
+  = {| i_name := name; i_loader := loader; i_parent := parent; i_lcasc := true; i_pcasc := true |}.
+Proof. reflexivity. Qed.
+
+(** ** find_pipeline *)
+Lemma gen_find_pipeline_loop_is_model is_file fname dirs :
+  gen_find_pipeline_loop is_file joinpath fname dirs = find_first is_file fname (map fst dirs).
+Proof.
+  induction dirs as [|d r IH]; cbn; [reflexivity|].
+  destruct (is_file (joinpath (fst d) fname)); [reflexivity|exact IH].
+Qed.
+
+Lemma gen_find_pipeline_is_model e fname dirs :
+  gen_find_pipeline (e_is_file e) (resolve (e_cwd e)) joinpath fname dirs =
+  match find_first (e_is_file e) fname (map fst dirs) with
+  | Some p => Ok (resolve (e_cwd e) p)
+  | None => Err PNF (not_found_msg fname (map fst dirs))
+  end.
+Proof.
+  unfold gen_find_pipeline. rewrite gen_find_pipeline_loop_is_model.
+  destruct (find_first _ _ _); reflexivity.
+Qed.
+
+(** ** get_pipeline_path: the whole look-up sequence *)
+Definition gen_path (e : env) (repo : string) : string -> pyparent -> res string :=
+  gen_get_pipeline_path repo (e_cwd e) (e_subdir e) (e_is_file e) (e_exists e) is_abs
+                        (resolve (e_cwd e)) text_id joinpath String.eqb.
+
+Lemma bind_ok_id {A} (r : res A) : (let* x := r in Ok x) = r.
+Proof. destruct r; reflexivity. Qed.
+
+Theorem gen_get_pipeline_path_is_model e repo name parent :
+  e_builtin e = default_builtin repo ->
+  gen_path e repo name parent = get_pipeline_path e name parent.
+Proof.
+  intros Hb. unfold gen_path, gen_get_pipeline_path, get_pipeline_path, text_id.
+  cbv zeta.
+  destruct (is_abs (name ++ ".yaml")); [reflexivity|].
+  unfold search_locations, parent_locs, parent_text.
+  rewrite Hb. change (gen_builtin_pipelines_dir repo joinpath) with (default_builtin repo).
+  change (gen_cwd_pipelines_dir (e_cwd e) (e_subdir e) joinpath) with (cwd_pipelines e).
+  destruct (p_truthy parent).
+  - replace (if is_path_obj parent then p_str parent else p_str parent) with (p_str parent)
+      by (destruct (is_path_obj parent); reflexivity).
+    destruct (e_exists e (resolve (e_cwd e) (p_str parent))).
+    + destruct (resolve (e_cwd e) (p_str parent) =? e_cwd e); cbn [negb];
+        rewrite bind_ok_id, gen_find_pipeline_is_model; reflexivity.
+    + rewrite bind_ok_id, gen_find_pipeline_is_model. reflexivity.
+  - rewrite bind_ok_id, gen_find_pipeline_is_model. reflexivity.
+Qed.
+
+(** ** load_pipeline_from_file / get_pipeline_definition = the model's file loader *)
+Lemma gen_load_pipeline_from_file_is_model e path st :
+  gen_load_pipeline_from_file dirname basename (add_sys_path e) path st =
+  (add_sys_path e st (PPath (dirname path)),
+   {| d_file := path; d_is_file_info := true; d_info := file_info path |}).
+Proof. reflexivity. Qed.
+
+Theorem gen_get_pipeline_definition_is_model e repo name parent st :
+  e_builtin e = default_builtin repo ->
+  gen_get_pipeline_definition repo (e_cwd e) (e_subdir e) (e_is_file e) (e_exists e) is_abs
+      (resolve (e_cwd e)) dirname basename text_id joinpath String.eqb (add_sys_path e) name parent st
+  = load_pipeline e st FILE_LOADER LFile name parent.
+Proof.
+  intros Hb. unfold gen_get_pipeline_definition, load_pipeline.
+  change (gen_get_pipeline_path repo (e_cwd e) (e_subdir e) (e_is_file e) (e_exists e) is_abs
+            (resolve (e_cwd e)) text_id joinpath String.eqb name parent) with (gen_path e repo name parent).
+  rewrite (gen_get_pipeline_path_is_model e repo name parent Hb).
+  destruct (get_pipeline_path e name parent); reflexivity.
+Qed.
+
+(** ** pype: get_arguments and what run_step hands to the child pipeline *)
+Theorem gen_get_arguments_is_model info o :
+  gen_get_arguments info o = (child_loader info o, o_pydir o, child_parent info o).
+Proof.
+  destruct o as [ol orr op od], info as [nm ld pr lc pc].
+  unfold gen_get_arguments, child_loader, child_parent. cbn.
+  destruct ol as [| |l], lc, orr as [[|]|], pc, op; cbn; try rewrite String.eqb_refl;
+    repeat match goal with |- context [if ?c then _ else _] => destruct c end; reflexivity.
+Qed.
+
+Theorem gen_run_step_request_is_model info o :
+  gen_run_step_request info o = (child_loader info o, o_pydir o, child_parent info o).
+Proof. unfold gen_run_step_request. rewrite gen_get_arguments_is_model. reflexivity. Qed.
+
+(** ** Pipeline.load_and_run_pipeline: py_dir first, then the request handed to the loader *)
+Theorem gen_load_and_run_pipeline_is_model e pydir loader name parent sys :
+  gen_load_and_run_pipeline (add_sys_path e) pydir loader name parent sys
+  = (pydir_sys e sys pydir, (loader, name, parent)).
+Proof.
+  unfold gen_load_and_run_pipeline, pydir_sys. destruct pydir as [d|]; [|reflexivity].
+  cbn. destruct (d =? ""); reflexivity.
+Qed.
+
+(** ** loadercache *)
+Theorem gen_pype_loader_name_is_model loader :
+  gen_pype_loader_name gen_config_default_loader loader = effective_loader loader.
+Proof.
+  unfold gen_pype_loader_name, effective_loader. destruct loader as [s|]; [|reflexivity].
+  cbn. destruct (s =? ""); reflexivity.
+Qed.
+
+Theorem gen_cache_key_is_model parent name : gen_cache_key parent name = cache_key parent name.
+Proof. reflexivity. Qed.
+
+Theorem gen_wrap_bare_mapping_is_model e st lname name parent path :
+  get_pipeline_path e name parent = Ok path ->
+  load_pipeline e st lname LBare name parent = Ok (st, gen_wrap_bare_mapping lname name parent path).
+Proof. unfold load_pipeline. intros ->. reflexivity. Qed.
